@@ -5,17 +5,17 @@ import tempfile
 from .. import common, tlc
 
 
-def codec_cfg(depth, caps, leafset, evo, modes, rawpad=3, impl_skip=False,
+def codec_cfg(depth, caps, leafset, evo, modes, rawpad=3, impl_skip=False, skip="observed",
               invariants=("InBounds", "EncRefines", "DecRefines", "WireRoundTrip", "ChunkShape"),
               properties=("OnlyOwnSlot",), liveness=False):
     lines = ["SPECIFICATION Spec", "CONSTANTS",
-             "  Depth = %d" % depth,
+             ("  Depth <- Minus1" if depth < 0 else "  Depth = %d" % depth),
              "  Caps = {%s}" % ", ".join(str(c) for c in caps),
              '  LeafSet = "%s"' % leafset,
              "  EvoSteps = %d" % evo,
              "  Modes = {%s}" % ", ".join('"%s"' % m for m in modes),
              "  RawPad = %d" % rawpad,
-             "  UseImplSkip = %s" % ("TRUE" if impl_skip else "FALSE")]
+             '  SkipVariant = "%s"' % ("impl-old" if impl_skip else skip)]
     for i in invariants:
         lines.append("INVARIANT " + i)
     for p in properties:
@@ -26,7 +26,7 @@ def codec_cfg(depth, caps, leafset, evo, modes, rawpad=3, impl_skip=False,
     return "\n".join(lines) + "\n"
 
 
-def run_cfg(module, text, timeout=3000, workers=16, coverage=False):
+def run_cfg(module, text, timeout=1500, workers=16, coverage=False):
     fd, path = tempfile.mkstemp(prefix="bpverif-cfg-", suffix=".cfg",
                                 dir=os.environ.get("TMPDIR", "/tmp"))
     with os.fdopen(fd, "w") as f:
